@@ -939,4 +939,297 @@ theorem unpackByte_packByte (fmt : List Nat) (fields : List Int) (boolean : Bool
   exact unpackByteLoop_sim b boolean fmt 8 _ bfp' hw hu
 
 
+
+
+/-! ## format text -/
+
+theorem unpack_pack_text (txt : List Char) (fields : List Int) (size : Option Int) (boolean rev : Bool)
+    (b : List Byte) (hp : packifyText txt fields size rev = .ok b) :
+    ∃ ws sz, parseFmt txt = .ok ws ∧ checkSize ws size = .ok sz ∧
+      unpackifyText txt b boolean size rev
+        = .ok (specFields boolean ws fields ++ padFields boolean (8 * sz - ws.sum.toNat)) := by
+  unfold packifyText at hp
+  split at hp
+  · cases hp
+  · next ws hws =>
+    obtain ⟨sz, h1, _, h3⟩ := unpack_pack ws fields size boolean rev b hp
+    refine ⟨ws, sz, hws, h1, ?_⟩
+    unfold unpackifyText
+    simp only [hws, h3]
+
+/-! ## packifyInto in full -/
+
+theorem sliceBounds_inside (n o k : Nat) (h : o + k ≤ n) :
+    sliceBounds n (o : Int) ((o : Int) + (k : Nat)) = (o, o + k) := by
+  unfold sliceBounds
+  simp only []
+  have h1 : ¬ ((o : Int) < 0) := by omega
+  have h2 : ¬ ((o : Int) + (k : Int) < 0) := by omega
+  simp only [h1, h2, if_false]
+  have e1 : (min (o : Int) (n : Int)).toNat = o := by omega
+  have e2 : (min ((o : Int) + (k : Int)) (n : Int)).toNat = o + k := by omega
+  rw [e1, e2]
+  have : ¬ (o + k < o) := by omega
+  simp [this]
+
+theorem sliceBounds_neg (n k : Nat) (i : Int) (h1 : -(n : Int) ≤ i) (h2 : i + (k : Int) < 0) :
+    sliceBounds n i (i + (k : Nat)) = ((i + n).toNat, (i + n).toNat + k) := by
+  unfold sliceBounds
+  simp only []
+  have hi : i < 0 := by omega
+  simp only [hi, h2, if_true]
+  have e1 : (max (i + (n : Int)) 0).toNat = (i + n).toNat := by omega
+  have e2 : (max (i + (k : Int) + (n : Int)) 0).toNat = (i + n).toNat + k := by omega
+  rw [e1, e2]
+  have : ¬ ((i + n).toNat + k < (i + n).toNat) := by omega
+  simp [this]
+
+
+theorem packIntoFull_ok (kind : BufKind) (hk : kind ≠ .bytes) (b : List Byte) (fmt fields : List Int)
+    (size : Option Int) (o : Nat) (rev : Bool) (p : List Byte)
+    (hp : packify fmt fields size rev = .ok p) :
+    packifyIntoFull kind b fmt fields size (o : Int) rev =
+      ((b ++ List.replicate (o + p.length - b.length) 0#8).take o ++ p ++
+        (b ++ List.replicate (o + p.length - b.length) 0#8).drop (o + p.length), .ok p.length) := by
+  obtain ⟨sz, n, bfp, hs, hl, hb⟩ := packify_ok hp
+  have hlen := packify_length hp hs
+  have hkb : (kind == BufKind.bytes) = false := by cases kind <;> simp_all
+  unfold packifyIntoFull
+  simp only [hs, hl, ← hb, hlen, hkb, Bool.and_false, Bool.false_eq_true, if_false]
+  by_cases hshort : (b.length : Int) < (o : Int) + (sz : Nat)
+  · have hnat : b.length < o + sz := by omega
+    have e : ((o : Int) + (sz : Nat) - (b.length : Int)).toNat = o + sz - b.length := by omega
+    simp only [hshort, decide_true, if_true, e]
+    have hl2 : (b ++ List.replicate (o + sz - b.length) 0#8).length = o + sz := by
+      simp only [List.length_append, List.length_replicate]; omega
+    unfold sliceAssign
+    rw [hl2, sliceBounds_inside (o + sz) o sz (by omega)]
+  · have hnat : ¬ b.length < o + sz := by omega
+    have e : o + sz - b.length = 0 := by omega
+    simp only [hshort, decide_false, Bool.false_eq_true, if_false, e, List.replicate_zero, List.append_nil]
+    unfold sliceAssign
+    rw [sliceBounds_inside b.length o sz (by omega)]
+
+/-- after ANY exception the caller's buffer is the old buffer, possibly with zero bytes appended -/
+theorem packIntoFull_error (kind : BufKind) (b b' : List Byte) (fmt fields : List Int)
+    (size : Option Int) (offset : Int) (rev : Bool) (e : IntoErr)
+    (h : packifyIntoFull kind b fmt fields size offset rev = (b', .error e)) :
+    (∃ k, b' = b ++ List.replicate k 0#8) ∧
+    ((∃ e', checkSize fmt size = .error e') → b' = b) ∧ (e = .attributeError → b' = b) := by
+  unfold packifyIntoFull at h
+  split at h
+  · next e' he =>
+    injection h with h1 h2; subst h1
+    exact ⟨⟨0, by simp⟩, fun _ => rfl, fun _ => rfl⟩
+  · next sz hs =>
+    have hno : ¬ ∃ e', checkSize fmt size = .error e' := by
+      rintro ⟨e', he'⟩; rw [hs] at he'; cases he'
+    simp only [] at h
+    split at h
+    · injection h with h1 h2; subst h1
+      exact ⟨⟨0, by simp⟩, fun _ => rfl, fun _ => rfl⟩
+    · split at h
+      · next e' _ =>
+        injection h with h1 h2; subst h1
+        injection h2 with h2; subst h2
+        refine ⟨?_, fun hh => absurd hh hno, fun hh => by cases hh⟩
+        split
+        · exact ⟨_, rfl⟩
+        · exact ⟨0, by simp⟩
+      · split at h
+        · injection h with h1 h2; subst h1
+          injection h2 with h2; subst h2
+          refine ⟨?_, fun hh => absurd hh hno, fun hh => by cases hh⟩
+          split
+          · exact ⟨_, rfl⟩
+          · exact ⟨0, by simp⟩
+        · injection h with h1 h2; cases h2
+
+/-- a negative offset that stays negative to its end overwrites in place, counted from the end -/
+theorem packIntoFull_neg (kind : BufKind) (hk : kind ≠ .bytes) (b : List Byte) (fmt fields : List Int)
+    (size : Option Int) (offset : Int) (rev : Bool) (p : List Byte)
+    (hp : packify fmt fields size rev = .ok p)
+    (h1 : -(b.length : Int) ≤ offset) (h2 : offset + (p.length : Nat) < 0) :
+    packifyIntoFull kind b fmt fields size offset rev =
+      (b.take (offset + b.length).toNat ++ p ++ b.drop ((offset + b.length).toNat + p.length),
+        .ok p.length) := by
+  obtain ⟨sz, n, bfp, hs, hl, hb⟩ := packify_ok hp
+  have hlen := packify_length hp hs
+  have hkb : (kind == BufKind.bytes) = false := by cases kind <;> simp_all
+  rw [hlen] at h2
+  unfold packifyIntoFull
+  have hshort : ¬ ((b.length : Int) < offset + (sz : Nat)) := by omega
+  simp only [hs, hl, ← hb, hlen, hkb, hshort, decide_false, Bool.and_false, Bool.false_eq_true, if_false]
+  unfold sliceAssign
+  rw [sliceBounds_neg b.length sz offset h1 h2]
+
+
+
+/-! ## a well-formed format text parses to its widths -/
+
+def digitChar (d : Nat) : Char := Char.ofNat (48 + d)
+
+/-- decimal digits of `n`, most significant first, in front of `acc` (what `str(n)` prints) -/
+def decimalAux (n : Nat) (acc : List Char) : List Char :=
+  if h : n < 10 then digitChar n :: acc else decimalAux (n / 10) (digitChar (n % 10) :: acc)
+decreasing_by omega
+
+def decimal (n : Nat) : List Char := decimalAux n []
+
+/-- a string of decimal digits -/
+def AllDigits (l : List Char) : Prop := ∀ c ∈ l, isDigit c = true
+
+theorem digitChar_spec : ∀ d : Fin 10, isDigit (digitChar d.val) = true ∧ digitOf (digitChar d.val) = d.val ∧
+    isSpace (digitChar d.val) = false ∧ digitChar d.val ≠ '_' ∧ digitChar d.val ≠ '+' ∧ digitChar d.val ≠ '-' := by
+  decide
+
+theorem isDigit_facts (c : Char) (h : isDigit c = true) :
+    isSpace c = false ∧ c ≠ '_' ∧ c ≠ '+' ∧ c ≠ '-' := by
+  unfold isDigit at h
+  simp only [Bool.and_eq_true, decide_eq_true_eq] at h
+  refine ⟨?_, ?_, ?_, ?_⟩
+  · unfold isSpace
+    have : c.toNat ≠ 32 := by omega
+    simp [this]; omega
+  all_goals (intro e; subst e; revert h; decide)
+
+/-- value of a digit string continuing from `acc` -/
+def decVal (l : List Char) (acc : Nat) : Nat := l.foldl (fun a c => a * 10 + digitOf c) acc
+
+theorem digitsLoop_digits : ∀ (l : List Char) (acc : Nat), AllDigits l →
+    digitsLoop l acc = some (decVal l acc)
+  | [], acc, _ => by simp [digitsLoop, decVal]
+  | c :: rest, acc, h => by
+    have hc := h c (by simp)
+    have hne := (isDigit_facts c hc).2.1
+    have ih := digitsLoop_digits rest (acc * 10 + digitOf c) (fun x hx => h x (by simp [hx]))
+    unfold digitsLoop
+    simp only [hne, if_false, hc, if_true, ih]
+    simp [decVal]
+
+theorem decimalAux_spec (n : Nat) (acc : List Char) (hacc : AllDigits acc) :
+    AllDigits (decimalAux n acc) ∧ (decimalAux n acc) ≠ [] ∧
+    decVal (decimalAux n acc) 0 = decVal acc n := by
+  fun_induction decimalAux n acc with
+  | case1 n acc hn =>
+    obtain ⟨h1, h2, _⟩ := digitChar_spec ⟨n, hn⟩
+    refine ⟨?_, by simp, ?_⟩
+    · intro c hc
+      rcases List.mem_cons.1 hc with rfl | hc
+      · exact h1
+      · exact hacc c hc
+    · simp only [decVal, List.foldl_cons] at h2 ⊢
+      rw [h2]; simp
+  | case2 n acc hn ih =>
+    have hd : n % 10 < 10 := by omega
+    obtain ⟨h1, h2, _⟩ := digitChar_spec ⟨n % 10, hd⟩
+    have hacc' : AllDigits (digitChar (n % 10) :: acc) := by
+      intro c hc
+      rcases List.mem_cons.1 hc with rfl | hc
+      · exact h1
+      · exact hacc c hc
+    obtain ⟨i1, i2, i3⟩ := ih hacc'
+    refine ⟨i1, i2, ?_⟩
+    rw [i3]
+    simp only [decVal, List.foldl_cons] at h2 ⊢
+    rw [h2]
+    congr 1
+    omega
+
+/-- `int(str(n)) == n` -/
+theorem parseInt_decimal (n : Nat) : parseInt (decimal n) = some (n : Int) ∧ AllDigits (decimal n) ∧ decimal n ≠ [] := by
+  obtain ⟨h1, h2, h3⟩ := decimalAux_spec n [] (by intro c hc; simp at hc)
+  refine ⟨?_, h1, h2⟩
+  unfold decimal at *
+  cases hl : decimalAux n [] with
+  | nil => exact absurd hl h2
+  | cons c rest =>
+    rw [hl] at h1 h3
+    have hc := h1 c (by simp)
+    obtain ⟨_, _, hp, hm⟩ := isDigit_facts c hc
+    have hrest : AllDigits rest := fun x hx => h1 x (by simp [hx])
+    have : parseInt (c :: rest) = (parseDigits (c :: rest)).map Int.ofNat := by
+      unfold parseInt
+      split
+      · next heq => injection heq with h _; exact absurd h hp
+      · next heq => injection heq with h _; exact absurd h hm
+      · rfl
+    rw [this]
+    simp only [parseDigits, hc, if_true, digitsLoop_digits rest _ hrest]
+    simp only [decVal, List.foldl_cons, Nat.zero_mul, Nat.zero_add] at h3
+    simp only [decVal, Option.map_some, h3, List.foldl_nil]
+    rfl
+
+
+theorem tokensAux_run (tok : List Char) (h : ∀ c ∈ tok, isSpace c = false) (rest cur : List Char) :
+    tokensAux (tok ++ rest) cur = tokensAux rest (tok.reverse ++ cur) := by
+  induction tok generalizing cur with
+  | nil => rfl
+  | cons c t ih =>
+    have hc := h c (by simp)
+    simp only [List.cons_append, tokensAux, hc, Bool.false_eq_true, if_false]
+    rw [ih (fun x hx => h x (by simp [hx]))]
+    simp
+
+theorem tokensAux_spaces (sp : List Char) (h : ∀ c ∈ sp, isSpace c = true) (rest : List Char) :
+    tokensAux (sp ++ rest) [] = tokensAux rest [] := by
+  induction sp with
+  | nil => rfl
+  | cons c t ih =>
+    have hc := h c (by simp)
+    simp only [List.cons_append, tokensAux, hc, if_true, List.isEmpty_nil]
+    exact ih (fun x hx => h x (by simp [hx]))
+
+/-- a format text: decimal widths, each followed by its separator -/
+def renderFmt : List (Nat × List Char) → List Char
+  | [] => []
+  | (w, sep) :: rest => decimal w ++ sep ++ renderFmt rest
+
+/-- separators are white space, and non-empty except possibly after the last width -/
+def SepsOk : List (Nat × List Char) → Prop
+  | [] => True
+  | (_, sep) :: rest => (∀ c ∈ sep, isSpace c = true) ∧ (rest ≠ [] → sep ≠ []) ∧ SepsOk rest
+
+theorem tokens_render : ∀ (items : List (Nat × List Char)), SepsOk items →
+    tokensAux (renderFmt items) [] = items.map (fun x => decimal x.1)
+  | [], _ => rfl
+  | (w, sep) :: rest, h => by
+    obtain ⟨hs, hne, hrest⟩ := h
+    obtain ⟨_, hd, hnil⟩ := parseInt_decimal w
+    have hns : ∀ c ∈ decimal w, isSpace c = false := fun c hc => (isDigit_facts c (hd c hc)).1
+    have hcur : ((decimal w).reverse ++ ([] : List Char)).isEmpty = false := by
+      cases hdw : decimal w with
+      | nil => exact absurd hdw hnil
+      | cons a t => simp
+    simp only [renderFmt, List.map_cons, List.append_assoc]
+    rw [tokensAux_run _ hns]
+    cases sep with
+    | nil =>
+      cases rest with
+      | nil => simp [renderFmt, tokensAux]; simpa using hcur
+      | cons r rs => exact absurd rfl (hne (by simp))
+    | cons c cs =>
+      have hc := hs c (by simp)
+      simp only [List.cons_append, tokensAux, hc, if_true, hcur, Bool.false_eq_true, if_false]
+      rw [tokensAux_spaces cs (fun x hx => hs x (by simp [hx])), tokens_render rest hrest]
+      simp
+
+/-- **Every well-formed format text parses to its widths**: optional leading white space, the
+widths in decimal, separated by non-empty white space (any of the ten ASCII white-space
+characters), optional trailing white space. -/
+theorem parseFmt_render (pre : List Char) (hpre : ∀ c ∈ pre, isSpace c = true)
+    (items : List (Nat × List Char)) (h : SepsOk items) :
+    parseFmt (pre ++ renderFmt items) = .ok (items.map (fun x => (x.1 : Int))) := by
+  unfold parseFmt tokens
+  rw [tokensAux_spaces pre hpre, tokens_render items h]
+  have : (items.map (fun x => decimal x.1)).mapM parseInt = some (items.map (fun x => (x.1 : Int))) := by
+    induction items with
+    | nil => rfl
+    | cons it rest ih =>
+      have := (parseInt_decimal it.1).1
+      simp only [List.map_cons, List.mapM_cons, this, ih h.2.2]
+      rfl
+  rw [this]
+
+
 end Ioflo.Bits
